@@ -151,7 +151,7 @@ func (g GenOpts) Random(rnd *rand.Rand) Script {
 				if len(g.Ctxs) > 0 && rnd.IntN(3) == 0 {
 					ctx = pick(rnd, g.Ctxs)
 				}
-				o := Op{Op: "pub", T: pick(rnd, types), Val: pick(rnd, vals), Ctx: ctx}
+				o := Op{Op: "pub", T: pick(rnd, types), Val: pick(rnd, vals), Ctx: ctx, Dyn: rnd.IntN(5) == 0}
 				if s.Cfg.Store && rnd.Float64() < g.PFail {
 					o.PFail = pick(rnd, []string{"rej", "rej", "hang"})
 				}
